@@ -106,6 +106,23 @@ func c13Run(c *Ctx) {
 		}
 		ins = append(ins, in)
 	}
+	// graph.value_info annotates values; an entry that happens to be named like an input (with
+	// other extents) or like an intermediate declares nothing the caller has to satisfy
+	if r.Chance(0.3) {
+		for _, in := range ins {
+			if r.Bool() {
+				other := make([]mon.Dim, len(in.dims))
+				for d := range other {
+					other[d] = mon.Dim{Value: int64(r.Range(6, 9))}
+				}
+				if r.Chance(0.3) {
+					other = append(other, mon.Dim{Value: 2})
+				}
+				g.ValueInfos = append(g.ValueInfos, mon.GInput{Name: in.name, DT: ref.F32, Dims: other})
+			}
+		}
+		g.ValueInfos = append(g.ValueInfos, mon.GInput{Name: "y0", DT: ref.F32, Dims: []mon.Dim{{Value: 3}}})
+	}
 	// a pure initializer (not a graph input) consumed by one more node
 	pure := r.Tensor(ref.F32, []int{2}, gen.FillSmall, 5)
 	g.Inits = append(g.Inits, mon.GInit{Name: "w_pure", T: pure})
@@ -349,6 +366,14 @@ func c13Run(c *Ctx) {
 			for i := range names {
 				names[i] = "scribbled"
 			}
+			outNames := m.OutputNames()
+			for i := range outNames {
+				outNames[i] = "scribbled"
+			}
+			paramNames := m.ParamNames()
+			for i := range paramNames {
+				paramNames[i] = "scribbled"
+			}
 		}
 		priorEvents = len(px.Events())
 		for k, v := range feed {
@@ -473,8 +498,9 @@ func c13Reported(c *Ctx) {
 		c.Nontrivial("reported|" + sig + fmt.Sprint(shape))
 	}
 	c.Count("reported-is-enforced-cases", 1)
-	var m *gonnx.Model
-	var reported onnxShape
+	var m, older *gonnx.Model
+	var reported, olderReported onnxShape
+	var olderErr error
 	var res gonnx.Tensors
 	o := mon.Capture(nil, func() ([]tensor.Tensor, error) {
 		var err error
@@ -490,6 +516,7 @@ func c13Reported(c *Ctx) {
 			g0.Inputs = []mon.GInput{{Name: "x", DT: ref.F32, Dims: other}}
 			mp := g0.Proto()
 			if m0, err0 := gonnx.NewModel(mp); err0 == nil {
+				older = m0
 				first := make([]int, rank)
 				for d := range first {
 					first[d] = shape[d] + 1 + d
@@ -506,6 +533,11 @@ func c13Reported(c *Ctx) {
 			return nil, fmt.Errorf("load: %w", err)
 		}
 		reported = m.InputShapes()["x"]
+		if older != nil {
+			// the model made BEFORE the edit: whatever it reports now is what it enforces now
+			olderReported = older.InputShapes()["x"]
+			_, olderErr = older.Run(gonnx.Tensors{"x": mon.ToTensor(x)})
+		}
 		res, err = m.Run(gonnx.Tensors{"x": mon.ToTensor(x)})
 		return nil, err
 	})
@@ -534,6 +566,17 @@ func c13Reported(c *Ctx) {
 		}
 		if dims[d].Value == 0 && !reported[d].IsDynamic {
 			c.Violation("introspection:IsDynamic", "x axis %d: reported as fixed (size %d), declared without a value", d, reported[d].Size)
+		}
+	}
+	if older != nil && len(olderReported) == rank {
+		olderAccept := true
+		for d := range olderReported {
+			if !olderReported[d].IsDynamic && olderReported[d].Size != int64(shape[d]) {
+				olderAccept = false
+			}
+		}
+		if olderAccept != (olderErr == nil) {
+			c.Violation("signature:reported-is-not-enforced", "the model made before the declaration was edited in place reports %v, and its Run of shape %v gives error %v", describeDims(olderReported), shape, olderErr)
 		}
 	}
 	switch {
